@@ -373,10 +373,46 @@ Proof.
   - right. exists e. split; [reflexivity|]. destruct e; simpl; [right|left|right|right]; split; try reflexivity; discriminate.
 Qed.
 
-Theorem hr_connect_total : forall hj ok conn rb,
-  hr_connect hj ok conn rb = HrConn500 \/ hr_connect hj ok conn rb = HrConnNotFound \/
-  (hj = true /\ ok = true /\ conn = true /\ hr_connect hj ok conn rb = HrConnTunnel rb).
-Proof. intros [] [] [] rb; simpl; tauto. Qed.
+Theorem hr_connect_total : forall hj ok conn rb early,
+  hr_connect hj ok conn rb early = HrConn500 \/ hr_connect hj ok conn rb early = HrConnNotFound \/
+  (hj = true /\ ok = true /\ conn = true /\ hr_connect hj ok conn rb early = HrConnTunnel (rb ++ early)).
+Proof. intros [] [] [] rb early; simpl; tauto. Qed.
+
+(* keep-alive on a connection served by a plugin *)
+Lemma hk_serve_uncompressed : forall pendings c,
+  hk_compressed c = false -> hk_reader_failed c = false ->
+  hk_serve c pendings = map (fun _ => true) pendings.
+Proof.
+  induction pendings as [|p r IH]; intros c Hc Hf; simpl; [reflexivity|].
+  unfold hk_serve_one. rewrite Hf, Hc. simpl. f_equal. apply IH; reflexivity.
+Qed.
+
+Lemma hk_serve_failed : forall pendings c,
+  hk_reader_failed c = true -> hk_serve c pendings = map (fun _ => false) pendings.
+Proof.
+  induction pendings as [|p r IH]; intros c Hf; simpl; [reflexivity|].
+  unfold hk_serve_one. rewrite Hf. f_equal. apply IH. exact Hf.
+Qed.
+
+Theorem hk_keepalive_partial : forall compressed pendings,
+  (compressed = false -> hk_serve (hk_fresh compressed) pendings = map (fun _ => true) pendings) /\
+  (forall p r, pendings = p :: r -> exists rest, hk_serve (hk_fresh compressed) pendings = true :: rest).
+Proof.
+  intros compressed pendings. split.
+  - intros ->. apply hk_serve_uncompressed; reflexivity.
+  - intros p r ->. simpl. eexists. reflexivity.
+Qed.
+
+Theorem hk_keepalive_refuted :
+  exists pendings, hk_serve (hk_fresh true) pendings <> map (fun _ => true) pendings /\
+                   hk_serve (hk_fresh true) pendings = [true; false].
+Proof. exists [true; true]. split; [discriminate|reflexivity]. Qed.
+
+Theorem hk_keepalive_compressed_exact : forall p r,
+  hk_serve (hk_fresh true) (p :: r) = true :: (if p then map (fun _ => false) r else hk_serve (hk_fresh true) r).
+Proof.
+  intros p r. simpl. destruct p; simpl; [|reflexivity]. f_equal. apply hk_serve_failed. reflexivity.
+Qed.
 
 (* ---------------------------------------------------------------------------------------- *)
 (* the rewrite of a request uses its own route only *)
@@ -407,10 +443,7 @@ Qed.
 (* plugins *)
 Definition hr_plugin_forwarding (p : hr_plugin) (inr out r : hr_req) : Prop :=
   match p with
-  | HrH2H =>
-      (* nothing is carried over: what the library left in Out (nothing, see hr_std_pre) *)
-      forall k, hr_mem k hr_xf3 = true -> hr_get k (hq_hdrs r) = hr_get k (hq_hdrs out)
-  | HrH2HS =>
+  | HrH2H | HrH2HS =>
       (* the three headers pass as they came in; no address is appended *)
       forall k, hr_mem k hr_xf3 = true -> hr_get k (hq_hdrs r) = hr_get k (hq_hdrs inr)
   | HrHS2H | HrHS2HS =>
@@ -451,7 +484,7 @@ Proof.
     assert (k <> hr_XFH) by (apply (hr_mem_false_neq k hr_xf3); [exact Hm|simpl; tauto]).
     assert (k <> hr_XFP) by (apply (hr_mem_false_neq k hr_xf3); [exact Hm|simpl; tauto]).
     destruct p.
-    + reflexivity.
+    + repeat (rewrite hr_get_assign_other by assumption). reflexivity.
     + repeat (rewrite hr_get_assign_other by assumption). reflexivity.
     + rewrite hr_xfwd_other by exact Hm. apply hr_get_assign_other. assumption.
     + rewrite hr_xfwd_other by exact Hm. apply hr_get_assign_other. assumption.
@@ -460,7 +493,12 @@ Proof.
     assert (HH : hr_last_for hr_XFH (hp_headers o) = None) by (apply Hnone; vm_compute; reflexivity).
     assert (HP : hr_last_for hr_XFP (hp_headers o) = None) by (apply Hnone; vm_compute; reflexivity).
     destruct p; cbn [hr_plugin_forwarding hr_plugin_rewrite hr_with hq_hdrs].
-    + intros k Hm. rewrite hr_get_set_all, (Hnone k Hm). reflexivity.
+    + intros k Hm. rewrite hr_get_set_all, (Hnone k Hm).
+      pose proof (Hnone k Hm) as Hk. destruct (hr_mem_xf3_cases k Hm) as [E|[E|E]]; subst k.
+      * rewrite hr_get_assign_other by exact hr_XFF_XFP.
+        rewrite hr_get_assign_other by exact hr_XFF_XFH. apply hr_get_assign_same.
+      * rewrite hr_get_assign_other by exact hr_XFH_XFP. apply hr_get_assign_same.
+      * apply hr_get_assign_same.
     + intros k Hm. rewrite hr_get_set_all, (Hnone k Hm).
       pose proof (Hnone k Hm) as Hk. destruct (hr_mem_xf3_cases k Hm) as [E|[E|E]]; subst k.
       * rewrite hr_get_assign_other by exact hr_XFF_XFP.
@@ -471,17 +509,15 @@ Proof.
     + rewrite !hr_get_set_all, HF, HH, HP. rewrite hr_xfwd_XFF, hr_xfwd_XFH, hr_xfwd_XFP, hr_get_assign_same. repeat split.
 Qed.
 
-(* http2http: the address frps appended to X-Forwarded-For does not reach the backend *)
-Definition hr_wit_req : hr_req :=
-  {| hq_method := hr_b "GET"; hq_path := hr_b "/"; hq_hasq := false; hq_query := []; hq_host := hr_b "a.example";
-     hq_hdrs := [(hr_XFF, hr_b "203.0.113.9")]; hq_body := []; hq_client_ip := Some (hr_b "127.0.0.1");
-     hq_tls := false; hq_scheme := []; hq_urlhost := [] |}.
-Definition hr_wit_opts : hr_popts := {| hp_local_addr := hr_b "127.0.0.1:80"; hp_rewrite_host := []; hp_headers := [] |}.
-
-Theorem hr_plugin_h2h_drops_forwarded :
-  exists o inr, hr_get hr_XFF (hq_hdrs inr) <> [] /\ hq_client_ip inr <> None /\ hp_headers o = [] /\
-    forall reenc, hr_get hr_XFF (hq_hdrs (hr_plugin_backend_view HrH2H o reenc inr)) = [].
+(* http2http / http2https deliver the X-Forwarded-For they received (which frps has extended) *)
+Theorem hr_plugin_h2h_keeps_forwarded : forall p o reenc inr,
+  p = HrH2H \/ p = HrH2HS -> hr_last_for hr_XFF (hp_headers o) = None ->
+  hr_get hr_XFF (hq_hdrs (hr_plugin_backend_view p o reenc inr)) = hr_get hr_XFF (hq_hdrs inr).
 Proof.
-  exists hr_wit_opts, hr_wit_req. repeat split; try (vm_compute; discriminate).
+  intros p o reenc inr Hp Hl. unfold hr_plugin_backend_view, hr_plugin_rewrite. cbn [hr_with hq_hdrs].
+  rewrite hr_get_set_all, Hl. destruct Hp; subst p.
+  - rewrite hr_get_assign_other by exact hr_XFF_XFP.
+    rewrite hr_get_assign_other by exact hr_XFF_XFH. apply hr_get_assign_same.
+  - rewrite hr_get_assign_other by exact hr_XFF_XFP.
+    rewrite hr_get_assign_other by exact hr_XFF_XFH. apply hr_get_assign_same.
 Qed.
-
